@@ -83,8 +83,8 @@ struct RunOut {
     branching: Vec<u8>,
     choices: Vec<u8>,
     final_store: Vec<CredSnap>,
-    /// the sequential warm-up assertion (credential id, counter)
-    warm: Option<(Vec<u8>, u32)>,
+    /// the sequential warm-up assertions (credential id, counter)
+    warm: Vec<(Vec<u8>, u32)>,
 }
 
 fn seed_creds() -> Vec<Passkey> {
@@ -106,11 +106,14 @@ fn run_config(cfg: &Config, choose: &mut dyn FnMut(usize, usize) -> usize) -> Ru
                 uv.set_yields(cfg.uv_yields);
                 auths.push(mk_auth(shared.clone(), uv, AuthCfg { counters: true, ..Default::default() }));
             }
-            // a sequential warm-up assertion on credential 0, completed before the concurrent phase
-            let warm = {
-                let r = crate::exec::block_on(auths[0].get_assertion(ga_request(RP, &[9u8; 32], Some(vec![descriptor(&creds[0].credential_id)]), None, true, true)));
-                r.ok().map(|r| (r.credential.map(|d| d.id.to_vec()).unwrap_or_default(), authdata::decode(&r.auth_data.to_vec()).map(|d| d.counter).unwrap_or(0)))
-            };
+            // sequential warm-up assertions on every seeded credential, completed before the concurrent phase
+            let mut warm: Vec<(Vec<u8>, u32)> = Vec::new();
+            for c in creds.iter() {
+                let r = crate::exec::block_on(auths[0].get_assertion(ga_request(RP, &[9u8; 32], Some(vec![descriptor(&c.credential_id)]), None, true, true)));
+                if let Ok(r) = r {
+                    warm.push((r.credential.map(|d| d.id.to_vec()).unwrap_or_default(), authdata::decode(&r.auth_data.to_vec()).map(|d| d.counter).unwrap_or(0)));
+                }
+            }
             let mut tasks: Vec<BoxFut<Result<(Vec<u8>, u32), u8>>> = Vec::new();
             for (a, c) in auths.iter_mut().zip(cfg.cers.iter()) {
                 let c = *c;
@@ -339,7 +342,7 @@ fn scheduler_engine(rep: &mut Report, args: &Args, only: Option<u64>) {
                     }
                     let case = json!({"index": idx, "engine": "scheduler", "config": cfg.json(), "schedule": out.choices, "results": out.results.iter().map(|r| format!("{:?}", r.result)).collect::<Vec<_>>()});
                     let mut items: Vec<_> = out.results.iter().map(|r| (r.cer, r.result.clone(), r.first_step as u64 + 2, (r.last_step as u64).saturating_add(2))).collect();
-                    if let Some(w) = &out.warm {
+                    for w in &out.warm {
                         items.push((Cer::Assert(0), Some(Ok(w.clone())), 0, 0));
                     }
                     let before = rep.get("duplicate_counter_runs");
@@ -398,7 +401,7 @@ fn scheduler_engine(rep: &mut Report, args: &Args, only: Option<u64>) {
                 rep.nontrivial(fnv(&out.choices) ^ (idx << 40));
                 let case = json!({"index": idx, "engine": "scheduler-sampled", "config": cfg.json(), "schedule": out.choices});
                 let mut items: Vec<_> = out.results.iter().map(|r| (r.cer, r.result.clone(), r.first_step as u64 + 2, (r.last_step as u64).saturating_add(2))).collect();
-                if let Some(w) = &out.warm {
+                for w in &out.warm {
                     items.push((Cer::Assert(0), Some(Ok(w.clone())), 0, 0));
                 }
                 let dl = match &out.end {
